@@ -1,4 +1,5 @@
 import GomlVerif.Model.Syntax
+import GomlVerif.Gen.AnfGuards
 /-
 Model of `crates/compiler/src/anf.rs` (`anf`, `anf_imm`, `anf_list`,
 `compile_match_arms_to_anf`, `anf_file`) on the unified expression language.
@@ -59,6 +60,36 @@ def isAtom : Expr → Bool
   | .var _ _ => true
   | .prim _ => true
   | _ => false
+
+/-- the `LiftExpr` variant a node of the unified language corresponds to (names as in `lift.rs`) -/
+def liftKind : Expr → String
+  | .var _ _ => "EVar"
+  | .prim _ => "EPrim"
+  | .tag _ _ => "ImmTag"
+  | .constr _ _ _ => "EConstr"
+  | .tuple _ _ => "ETuple"
+  | .array _ _ => "EArray"
+  | .closure _ _ _ => "EClosure"
+  | .letE _ _ _ => "ELet"
+  | .matchE _ _ _ _ => "EMatch"
+  | .ite _ _ _ => "EIf"
+  | .while _ _ => "EWhile"
+  | .go _ => "EGo"
+  | .cget _ _ _ _ => "EConstrGet"
+  | .un _ _ _ => "EUnary"
+  | .bin _ _ _ _ => "EBinary"
+  | .call _ _ _ => "ECall"
+  | .toDyn _ _ _ _ => "EToDyn"
+  | .dynCall _ _ _ _ _ => "EDynCall"
+  | .traitCall _ _ _ _ _ => "ETraitCall"
+  | .proj _ _ _ => "EProj"
+
+/-- the guard of the `EBinary { op: And | Or }` arm (`anf.rs:513`): `matches!(*rhs, …)` — a right
+    operand for which `&&` / `||` stays a binary operator over two immediates instead of becoming
+    an `if`.  The list of accepted variants is regenerated from the source on every run
+    (`Gen/AnfGuards.lean`); `Lemmas/AnfDec.lean` proves it is `isAtom` (`trivialRhs_eq_isAtom`),
+    i.e. the right operand has nothing to evaluate — the proof breaks when the guard widens. -/
+def trivialRhs (e : Expr) : Bool := Gen.trivialRhsKinds.contains (liftKind e)
 
 /-- a continuation receives what was built and the current counter -/
 abbrev Kont (α : Type) := α → Nat → Expr × Nat
@@ -121,7 +152,7 @@ def anf (e : Expr) (n : Nat) (k : Kont Expr) : Expr × Nat :=
   | .cget c idx ty e => immK e (anf e) n (fun ei n => k (.cget c idx ty ei) n)
   | .un op ty e => immK e (anf e) n (fun ei n => k (.un op ty ei) n)
   | .bin op ty l r =>
-    if (op == .and || op == .or) && !isAtom r then
+    if (op == .and || op == .or) && !trivialRhs r then
       -- the `EIf` case applied to `if l { r } else { false }` / `if l { true } else { r }`
       immK l (anf l) n (fun ci n =>
         if op == .and then
